@@ -416,9 +416,10 @@ class Judge:
             else:
                 xrows = [(enc(t), True) for t in full]
             for lim, ob in [(None, res["full"])] + [(int(k), v) for k, v in res["limits"].items()]:
-                if is_err(ob["ids"]) or xrows is None:
-                    continue
-                c = (f"({c_cfg(page, factor, ent.pp, lim)}, {c_xrows(xrows)}, ({clist(cz(enc(t)) for t in ob['ids'])}, "
+                if xrows is None or (is_err(ob["ids"]) and ob["ids"]["err"] != "InvalidQuery"):
+                    continue   # an unexpected exception is the oracle's business (exception:*), not a model case
+                ids_c = "(@None (list Z))" if is_err(ob["ids"]) else f"(Some {clist(cz(enc(t)) for t in ob['ids'])})"
+                c = (f"({c_cfg(page, factor, ent.pp, lim)}, {c_xrows(xrows)}, ({ids_c}, "
                      f"{clist(c_res_int(v) for v in ob['counts'])}, {clist(c_res_bool(v) for v in ob['anys'])}))")
                 self.exec_cases.append(c)
                 self.exec_meta.append({"case": {k: v for k, v in case.items() if k != 'meta'}, "limit": lim, "observed": {k: ob[k] for k in ("ids", "counts", "anys")}})
@@ -446,6 +447,7 @@ class Judge:
             ok = is_err(ids) or (not is_err(ob["counts"][0]) and ob["counts"][0] == len(ids) and ob["counts"][0] >= 0)
             if not ok:
                 self.fail(f"neglimit:{tag}", case, "negative limit in Query.limit is neither rejected nor consistent (count vs iteration)", **rep)
+            self.ctx.hist("limit_kind", "negative-refused" if is_err(ids) else "negative-accepted")
             return
         if is_err(ids):
             self.fail(f"exception:{tag}:limit", case, "iteration raised", **rep)
